@@ -187,7 +187,7 @@ class SG:
         # give the single column a known alias
         inner = "(select (expras %s %s) (from (t %s)))" % (self.int_expr("t", 1), h("v"), h("t"))
         k = r.random()
-        if k < 0.6:
+        if k < 0.6 or self.portable:
             return "(select (col (col %s %s)) (expr (bin add (col %s %s) (val i:i32:1))) (from (tsub %s %s)))" % (
                 h("s"), h("v"), h("s"), h("v"), inner, h("s")), False
         rows = " ".join("(row i:i32:%d s:%s)" % (r.randrange(0, 5), h(r.choice(["p", "q"]))) for _ in range(r.randrange(1, 4)))
@@ -285,7 +285,9 @@ class SG:
                 else:
                     sel.append("(expr %s)" % self.int_expr(src, 1))
             cs.append("(selectfrom (select %s (from (t %s))%s))" % (" ".join(sel), h(src), "".join(" " + w for w in self.where(src))))
-        if with_id and r.random() < 0.8:
+        if with_id and self.portable:
+            pass      # upsert has no common form across the three backends
+        elif with_id and r.random() < 0.8:
             k2 = r.random()
             if k2 < 0.3:
                 cs.append("(onconflict (cols %s) (nothing))" % h("id"))
